@@ -59,6 +59,10 @@ def evaluate(a, text, want=None, options=True, nocomments=True):
         got = gen.project(dom)
     except gen.ProjectionError as e:
         return [(CL_SHAPE, str(e)[:300])], None
+    except (AttributeError, IndexError, TypeError, ValueError, KeyError) as e:
+        # the DOM holds something that is not of the documented shape (e.g. a bare string where a (namespace, name) pair belongs):
+        # the parsed DOM is not what the source denotes - a failure of the shape clause, not a crash of the checker
+        return [(CL_SHAPE, 'DOM not of the documented shape: %s: %s' % (type(e).__name__, str(e)[:200]))], None
     if got != want:
         fails.append((CL_EQUAL, _diff(got, want)))
     else:
